@@ -85,8 +85,14 @@ def build(rng):
     flags = rng.choice([0x0000, 0x0100])
     qname = recase(rng, APEX) if rng.random() < 0.3 else APEX
     question = qname + u16(rng.choice([6, 1, 2, 16])) + u16(1)
-    msg = T.header(mid, flags, 1, 0, 0, 1) + question
-    ureq = T.header(mid, flags, 1, 0, 0, 0) + question
+    # half of the requests are EDNS requests: an OPT RR precedes the TSIG RR (and is under its MAC); the
+    # response then carries an OPT RR before its TSIG RR, which the response MAC must cover as well
+    opt = b""
+    if rng.random() < 0.5:
+        opt = b"\x00" + u16(41) + u16(rng.choice([512, 1232, 4096, 65535])) + bytes(4) + u16(0)
+    nopt = 1 if opt else 0
+    msg = T.header(mid, flags, 1, 0, 0, 1 + nopt) + question + opt
+    ureq = T.header(mid, flags, 1, 0, 0, nopt) + question + opt
     rdata0 = T.tsig_rdata(algname, 0, fudge, bytes(ml), oid, 0, b"")
     rr = len(msg)
     req = msg + T.tsig_rr(owner, rdata0)
@@ -98,6 +104,8 @@ def build(rng):
     flips = []
     if scen == "flip":
         cands = ([0, 1, 3] + label_positions(qname, 12) + [12 + len(qname) + i for i in range(4)]
+                 + ([12 + len(qname) + 4 + 3, 12 + len(qname) + 4 + 4] if opt else [])     # the OPT's payload size
+
                  + label_positions(owner, rr) + label_positions(algname, rd)
                  + list(range(tp, tp + 8)) + list(range(mp, mp + ml)) + list(range(mp + ml, mp + ml + 4)))
         for _ in range(rng.choice([1, 1, 1, 2])):
@@ -202,7 +210,7 @@ CHECK = {
                  "the Python signer's digest and the runner's own SHA-1/SHA-256/HMAC at run time (time signed = server "
                  "clock + offset; clock sampled before/after, case redone on a second boundary): valid, wrong signing "
                  "key, unknown key name, key configured for the other algorithm, unknown algorithm name, MACs truncated to "
-                 "allowed and disallowed lengths, offsets at +-fudge, +-(fudge+-1) and far outside, flipped octets in ID / "
+                 "allowed and disallowed lengths, half of the requests with an OPT RR before the TSIG RR (EDNS responses: the OPT RR of the response must be under the response MAC), offsets at +-fudge, +-(fudge+-1) and far outside, flipped octets in ID / "
                  "question / key name / algorithm name / time / fudge / MAC / original ID / error, letter-case changes; "
                  "checked: RCODE, answer data present or not, response identical to the unsigned query's response apart "
                  "from the TSIG RR, TSIG error, MAC length, time signed (server's or request's), fudge, other data, "
